@@ -781,7 +781,17 @@ func init() {
 		return indexSub(strBytes2(args[0]), strBytes2(args[1]))
 	})
 	reg("internal/bytealg.MakeNoZero", func(fr *frame, fn *ssa.Function, args []Val) Val {
-		n := args[0].(int64)
+		n, isC := args[0].(int64)
+		if !isC {
+			t := toBV(args[0], 64)
+			if in.ex.branch(in.path, mkCmp(OSlt, t, mkBV(0, 64))) {
+				fr.fault(nil, "makeslice", "makeslice: len out of range")
+			}
+			if in.ex.branch(in.path, mkCmp(OSlt, mkBV(64, 64), t)) {
+				panic(pathEnd{"bound", "symbolic allocation size above the engine bound of 64"})
+			}
+			n = concretize(t, 64, 0, 64)
+		}
 		s := make([]Val, n)
 		for i := range s {
 			s[i] = int64(0)
